@@ -10,11 +10,24 @@ Oracle: (i) normalize_type(a) == normalize_type(b), equal hashes, both orders (c
 a and b agree on a probe battery; create_loc_stack_checker(a) and (b) agree on stacks carrying either spelling;
 (ii) normal forms differ; always: idempotence normalize_type(n.source) == n; bare generics expose the documented
 implicit parameters (Any / bound / union of constraints).
+
+Look-alike Literal members (one family, every position above): two legal Literal members that compare equal and hash
+equal but belong to different classes denote different types -- bool / int, int / member of IntEnum, IntFlag or
+``class E(int, Enum)``, str / member of StrEnum or ``class E(str, Enum)``, bytes / member of ``class E(bytes, Enum)``,
+members of two different mixin enums, members of twin classes (and, not equal but alike, a plain Enum member / its
+value).  They are generated as an edit (one member replaced by a look-alike), as a type family (literals that hold
+several look-alikes at once, bare / split over a union / next to classes / in containers, so that the union
+de-duplication and the merged-vs-split rewrites meet them) and as an exhaustive pair table; the same oracles decide
+them, plus the converter: ``get_converter`` links a field of type a to a field of type b as is iff a and b are one type.
 """
 from __future__ import annotations
 
 import copy
+import dataclasses
+import enum
+import itertools
 import typing
+import zlib
 from typing import Any
 
 from vkit import env, runner
@@ -28,6 +41,7 @@ from adaptix import ProviderNotFoundError, Retort, create_loc_stack_checker  # n
 from adaptix._internal.provider.loc_stack_filtering import LocStack  # noqa: E402
 from adaptix._internal.provider.location import TypeHintLoc  # noqa: E402
 from adaptix._internal.type_tools import normalize_type  # noqa: E402
+from adaptix.conversion import get_converter  # noqa: E402
 from vkit import codec, soup, tspec  # noqa: E402
 
 PROP = "C15"
@@ -128,12 +142,106 @@ LEAF_SWAP = {"int": "str", "str": "bytes", "bool": "int", "float": "int", "none"
              "fraction": "decimal", "complex": "float", "time": "date", "timedelta": "float", "bytearray": "bytes"}
 
 
+# ------------------------------------------------------------------------------------ look-alike Literal members
+# Legal Literal members are None, bool, int, str, bytes and enum members.  Two members that are ``==`` (and hash equal) but of
+# different classes are different types; the enum bases below are all the ways an enum member can be equal to a plain value or to
+# a member of another enum.  ("Enum" / "Flag" members are equal to nothing else; they are in the family as alike-but-unequal.)
+INT_MIXINS, STR_MIXINS, BYTES_MIXINS = ("IntEnum", "int_Enum", "IntFlag"), ("StrEnum", "str_Enum"), ("bytes_Enum",)
+EXTRA_ENUM_BASES = {"int_Enum": (int, enum.Enum), "bytes_Enum": (bytes, enum.Enum)}   # the bases tspec does not know
+_lk_uid = itertools.count()
+
+
+def _is_bytes(v):
+    return isinstance(v, dict) and v.get("$") == "bytes"
+
+
+def _is_member(v):
+    return isinstance(v, dict) and v.get("$") == "enum" and "spec" in v
+
+
+def _pow2(v):
+    return type(v) is int and v > 0 and v & (v - 1) == 0
+
+
+def lk_member(base, value, suffix=""):
+    """Member ``A`` of a two-member enum of kind ``base`` whose value is ``value`` (the name is a function of base and value)."""
+    if type(value) is int:
+        other = 64 if value != 64 else 32
+    elif isinstance(value, str):
+        other = value + "_"
+    else:
+        other = {"$": "bytes", "h": value["h"] + "00"}
+    name = f"Lk{base}_{zlib.crc32(repr(value).encode()) & 0xfffff:05x}{suffix}"
+    return {"$": "enum", "c": name, "n": "A", "spec": {"name": name, "base": base, "members": [["A", value], ["B", other]]}}
+
+
+def member_value(v):
+    return next(x for n, x in v["spec"]["members"] if n == v["n"])
+
+
+def lk_kind(v):
+    if _is_member(v):
+        return v["spec"]["base"]
+    return "bytes" if _is_bytes(v) else type(v).__name__
+
+
+def lookalikes_of(v):  # noqa: C901
+    """Every other legal Literal member that is alike ``v`` (equal value, another class)."""
+    out = []
+    if type(v) is bool:
+        out += [int(v), *[lk_member(b, int(v)) for b in INT_MIXINS if b != "IntFlag" or v]]
+    elif type(v) is int:
+        out += [bool(v)] if v in (0, 1) else []
+        out += [lk_member(b, v) for b in INT_MIXINS if b != "IntFlag" or _pow2(v)]
+        out.append(lk_member("Enum", v))
+    elif isinstance(v, str):
+        out += [lk_member(b, v) for b in STR_MIXINS]
+        out.append(lk_member("Enum", v))
+    elif _is_bytes(v):
+        out += [lk_member(b, v) for b in BYTES_MIXINS]
+    elif _is_member(v):
+        es, val = v["spec"], member_value(v)
+        plain_ok = type(val) in (int, str) or _is_bytes(val)
+        if plain_ok:
+            out.append(val)
+            if val in (0, 1) and type(val) is int:
+                out.append(bool(val))
+        if not es["name"].endswith("_twin"):
+            twin = copy.deepcopy(es)
+            twin["name"] = es["name"] + "_twin"
+            out.append({"$": "enum", "c": twin["name"], "n": v["n"], "spec": twin})   # same names, same values, another class
+        group = next((g for g in (INT_MIXINS, STR_MIXINS, BYTES_MIXINS) if es["base"] in g), ())
+        if plain_ok:
+            out += [lk_member(b, val) for b in group if b != es["base"] and (b != "IntFlag" or _pow2(val))]
+    return out
+
+
+def literal_member_keys(spec):
+    """Multiset of the typed Literal members written anywhere in ``spec``."""
+    import collections  # noqa: PLC0415
+    return collections.Counter(_lit_key(v) for _, node in nodes(spec) if node[0] == "literal" for v in node[1])
+
+
+def _lit_key(v):
+    return repr(sorted((k, repr(x)) for k, x in v.items() if k != "spec")) if isinstance(v, dict) else (type(v).__name__, repr(v))
+
+
 def changing_options(s):  # noqa: C901
     tag = s[0]
     out = []
     if tag in LEAF_SWAP:
         out.append(("leaf_class", [LEAF_SWAP[tag]]))
     if tag == "literal":
+        present = {_lit_key(x) for x in s[1]}
+        for i, v in enumerate(s[1]):
+            if v is None:
+                continue
+            for w in lookalikes_of(v):
+                if {type(v), type(w)} == {int, bool}:
+                    continue   # the two edits below
+                if _lit_key(w) not in present:
+                    out.append((f"lookalike_{lk_kind(v)}_to_{lk_kind(w)}" + ("_twin" if _is_member(w) and w["c"].endswith("_twin") else ""),
+                                ["literal", [*s[1][:i], w, *s[1][i + 1:]]]))
         for i, v in enumerate(s[1]):
             if type(v) is int and v in LOOKALIKE and LOOKALIKE[v] not in [x for x in s[1] if type(x) is bool]:
                 out.append(("literal_int_to_bool", ["literal", [*s[1][:i], LOOKALIKE[v], *s[1][i + 1:]]]))
@@ -194,9 +302,85 @@ def st_deep_twins(draw):
     return t
 
 
+LK_SHAPES = ["bare", "bare", "split_union", "split_union", "two_literals", "two_literals", "union_with_class", "list", "dict_value",
+             "tuple", "optional"]
+
+
+@st.composite
+def st_lookalike_type(draw):  # noqa: C901
+    """A type around a Literal whose members are look-alikes of ONE value (1, True, IntEnum.A == 1, IntFlag.A == 1 ...), merged in
+    one Literal or split over the members of a union."""
+    kind = draw(st.sampled_from(["int", "int", "str", "bytes"]))
+    if kind == "int":
+        v = draw(st.sampled_from([0, 1, 1, 2, -1, 4]))
+    elif kind == "str":
+        v = draw(st.sampled_from(["a", "", "1", "fast"]))
+    else:
+        v = {"$": "bytes", "h": draw(st.sampled_from(["", "61"]))}
+    pool = [v, *lookalikes_of(v)]
+    pool += [w for m in pool[1:] if _is_member(m) and m["spec"]["base"] != "Enum" for w in lookalikes_of(m)
+             if _is_member(w) and w["c"].endswith("_twin")]
+    k = draw(st.integers(1, min(4, len(pool))))
+    members = draw(st.lists(st.sampled_from(pool), min_size=k, max_size=k, unique_by=_lit_key))
+    extras = draw(st.sampled_from([[], [], [7], ["zz"], [None], [7, "zz", 8, 9]]))
+    shape = draw(st.sampled_from(LK_SHAPES))
+    lit = ["literal", members + extras]
+    if shape == "split_union" and len(lit[1]) >= 2:
+        cases = [["literal", [m]] for m in lit[1]]
+        if draw(st.booleans()):
+            cases.append(draw(st.sampled_from(cases)))   # written twice: one case after de-duplication
+        t = ["union", cases, "typing"]
+    elif shape == "two_literals" and len(lit[1]) >= 2:
+        cut = draw(st.integers(1, len(lit[1]) - 1))
+        cases = [["literal", lit[1][:cut]], ["literal", lit[1][cut:]]]
+        if draw(st.booleans()):
+            cases.insert(draw(st.integers(0, 2)), draw(st.sampled_from([["int"], ["str"], ["none"], ["bool"]])))
+        t = ["union", cases, draw(st.sampled_from(["typing", "bar"]))]
+    elif shape == "union_with_class":
+        t = ["union", [lit, draw(st.sampled_from([["int"], ["str"], ["none"], ["bool"], ["bytes"]]))], "typing"]
+    elif shape == "list":
+        t = ["list", lit, "typing"]
+    elif shape == "dict_value":
+        t = ["dict", ["str"], lit, "typing"]
+    elif shape == "tuple":
+        t = ["tuple", [["int"], lit], "typing"]
+    elif shape == "optional":
+        t = ["optional", lit, "optional"]
+    else:
+        t = lit
+    if draw(st.integers(0, 3)) == 0:
+        t = ["list", t, "builtin"]
+    return t
+
+
+def datum_options(spec):
+    """Data a type of the look-alike family is loaded from (the plain values of the literal members, wrapped alike)."""
+    tag = spec[0]
+    if tag == "literal":
+        out = []
+        for v in spec[1]:
+            d = member_value(v) if _is_member(v) else v
+            if not any(_lit_key(d) == _lit_key(x) for x in out):
+                out.append(d)
+        return out
+    if tag == "list":
+        return [[d] for d in datum_options(spec[1])]
+    if tag == "dict":
+        return [{"$": "d", "v": [["k", d]]} for d in datum_options(spec[2])]
+    if tag == "tuple":
+        return [[3, d] for d in datum_options(spec[1][1])]
+    if tag == "optional":
+        return [None, *datum_options(spec[1])]
+    if tag == "union":
+        return [d for c in spec[1] for d in datum_options(c)]
+    return [{"int": 5, "str": "s", "none": None, "bool": False, "bytes": "YQ=="}[tag]]
+
+
 @st.composite
 def st_case(draw):
-    t = draw(st_deep_twins()) if draw(st.integers(0, 4)) == 0 else draw(GEN.strategy())
+    family = draw(st.sampled_from(["deep_twins", "lookalike", "grammar", "grammar", "grammar"]))
+    t = draw(st_deep_twins()) if family == "deep_twins" else draw(st_lookalike_type()) if family == "lookalike" \
+        else draw(GEN.strategy())
     mode = draw(st.sampled_from(["preserve", "preserve", "change"]))
     steps = []
     cur = t
@@ -213,10 +397,17 @@ def st_case(draw):
         opts = [(p, name, new) for p, s in nodes(cur) for name, new in changing_options(s)]
         if not opts:
             return {"mode": "none", "a": t, "b": t, "steps": []}
+        alike = [o for o in opts if o[1].startswith("lookalike_")]
+        if alike and family == "lookalike" and draw(st.integers(0, 3)) != 0:
+            opts = alike   # the other edits of a literal are well represented by the grammar family
         p, name, new = draw(st.sampled_from(opts))
         cur = set_node(cur, p, new)
         steps.append([name, len(p)])
-    if unions_reference_dumpable(t):
+    if family == "lookalike":
+        # (the reference dump of soup.st_near_valid builds the type through tspec, which does not know every enum base used here)
+        opts = datum_options(t)
+        probes = [draw(st.sampled_from(opts)) for _ in range(3)] + [draw(soup.st_soup(4)) for _ in range(2)] + [0, 1, True, "a", [1]]
+    elif unions_reference_dumpable(t):
         probes = [draw(soup.st_near_valid(t, max_mut=1))[0] for _ in range(2)] + [draw(soup.st_soup(4))]
     else:
         # overlapping / non-class union cases: the reference dump cannot pick a case; such types still matter here because
@@ -224,7 +415,7 @@ def st_case(draw):
         probes = [draw(soup.st_soup(6)) for _ in range(3)] + [[], [[]], [["2020-01-02"]], [[1]], {"$": "d", "v": [["a", [1]]]}]
     values = [draw(tspec.st_value(t)) for _ in range(2)]
     return {"mode": mode, "a": t, "b": cur, "steps": steps, "probes": probes, "values": values,
-            "order": draw(st.booleans())}
+            "order": draw(st.booleans()), "family": family}
 
 
 def denote(spec):  # noqa: C901, PLR0911, PLR0912
@@ -290,6 +481,18 @@ def unions_reference_dumpable(t) -> bool:
 
 def build_hint(spec, shared_env):
     """Both spellings are built in ONE environment so that equally named enum specs denote the same class."""
+    for _, node in nodes(spec):
+        if node[0] == "literal":
+            for v in node[1]:
+                if _is_member(v) and v["spec"]["base"] in EXTRA_ENUM_BASES and v["spec"]["name"] not in shared_env.classes:
+                    es = v["spec"]   # an enum base tspec cannot build: the class is made here, tspec finds it by name
+                    bases = EXTRA_ENUM_BASES[es["base"]]
+                    cname = f"{es['name']}_x{next(_lk_uid)}"
+                    ns = enum.EnumMeta.__prepare__(cname, bases)
+                    for n, val in es["members"]:
+                        ns[n] = codec.build(val, shared_env)
+                    shared_env.classes[es["name"]] = enum.EnumMeta(cname, bases, ns)
+                    shared_env.specs[es["name"]] = es
     try:
         return tspec.build_type(spec, shared_env)
     except TypeError:
@@ -341,7 +544,8 @@ def check_case(ctx: runner.Ctx, case):  # noqa: C901, PLR0912, PLR0915
     nontrivial = (case["mode"] == "preserve" and len(steps) >= 2 and deep >= 1) or (case["mode"] == "change" and deep >= 1)
     ctx.case([case["mode"], a_spec, b_spec], nontrivial,
              sample={"mode": case["mode"], "a": repr(hint_a)[:200], "b": repr(hint_b)[:200], "steps": steps},
-             labels=[f"mode:{case['mode']}", *[f"step:{s[0]}" for s in steps], f"nsteps:{len(steps)}"])
+             labels=[f"mode:{case['mode']}", *[f"step:{s[0]}" for s in steps], f"nsteps:{len(steps)}",
+                     f"family:{case.get('family', 'table')}"])
     head = f"mode={case['mode']} steps={steps} a={hint_a!r} b={hint_b!r}"
     # idempotence
     for n in (na, nb):
@@ -379,6 +583,21 @@ def check_case(ctx: runner.Ctx, case):  # noqa: C901, PLR0912, PLR0915
             if any(cross):
                 ctx.violation("different_types_match_as_predicates", (steps[0][0],), case,
                               f"{head}: pred(a) on a location typed b -> {cross[0]}, pred(b) on a location typed a -> {cross[1]}")
+        if steps[0][0].startswith(("lookalike_", "literal_int_to_bool", "literal_bool_to_int", "literal_bool_int_table")):
+            # one Literal member became an equal value of another class: neither type is the other, a subclass of it or Any, so no
+            # documented rule lets the converter pass a as b (or b as a) -- unless one is a sub-union of the other, which needs the
+            # old member to be written elsewhere in a too or the new one to be there already (Union[List[Literal[True]],
+            # List[Literal[1]]] -> Union[List[Literal[1]]]): ruled out by construction, counted
+            ka, kb = literal_member_keys(a_spec), literal_member_keys(b_spec)
+            if sum((ka - kb).values()) != 1 or sum((kb - ka).values()) != 1 or any(kb[k] > 1 for k in kb - ka) \
+                    or any(ka[k] > 1 for k in ka - kb):
+                ctx.count("converter_cross_probe_skipped_possible_sub_union")
+                return None
+            for x, y, way in ((hint_a, hint_b, "a->b"), (hint_b, hint_a, "b->a")):
+                ctx.count("converter_cross_probes")
+                if converter_links(x, y):
+                    ctx.violation("different_types_are_one_type_for_the_converter", (steps[0][0],), case,
+                                  f"{head}: get_converter links a field of type {x!r} to a field of type {y!r} ({way})")
         return None
     # ---- meaning preserving
     if na != nb:
@@ -418,6 +637,11 @@ def check_case(ctx: runner.Ctx, case):  # noqa: C901, PLR0912, PLR0915
             if not same:
                 ctx.violation("equivalent_hints_dump_differently", ("+".join(sorted({s[0] for s in steps})),), case,
                               f"{head} value={v!r}: a -> {oa!r}; b -> {ob!r}")
+    # converter: "source type and destination type are the same" -> coercible
+    ctx.count("converter_probes")
+    if not converter_links(hint_a, hint_b):
+        ctx.violation("equivalent_hints_are_two_types_for_the_converter", ("+".join(sorted({s[0] for s in steps})),), case,
+                      f"{head}: get_converter finds no coercer from a field of type a to a field of type b (ProviderNotFoundError)")
     # predicates: a hint used as predicate matches locations carrying either spelling
     try:
         ca, cb = create_loc_stack_checker(hint_a), create_loc_stack_checker(hint_b)
@@ -437,6 +661,21 @@ def check_case(ctx: runner.Ctx, case):  # noqa: C901, PLR0912, PLR0915
             ctx.violation("equivalent_hints_match_differently", ("+".join(sorted({s[0] for s in steps})),), case,
                           f"{head}: stack carrying {carried!r}: pred(a)={ra} pred(b)={rb}")
     return None
+
+
+def converter_links(hint_a, hint_b) -> bool:
+    """Does ``get_converter`` find a coercer from a field of type a to a field of type b?  Documented (conversion tutorial, "Type
+    coercion"): it does when "source type and destination type are the same"; apart from dst Any / subclass / union subset /
+    element-wise coercion of compounds (which the callers rule out) "there are no implicit coercions".  The converter is not
+    run: compounds of one type are rebuilt element-wise, not passed as is, so nothing is stated about the result's identity."""
+    n = next(_lk_uid)
+    src = dataclasses.make_dataclass(f"C15Src{n}", [("f", hint_a)])
+    dst = dataclasses.make_dataclass(f"C15Dst{n}", [("f", hint_b)])
+    try:
+        get_converter(src, dst)
+    except ProviderNotFoundError:
+        return False
+    return True
 
 
 class _DirectMediator:
@@ -554,19 +793,55 @@ LITERAL_LOOKALIKE_PAIRS = [([0, 1], [False, True]), ([0], [False]), ([1], [True]
                            ([1, 2, 3, 4, 5], [True, 2, 3, 4, 5]), ([0, "a", "b", "c", "d"], [False, "a", "b", "c", "d"])]
 
 
+def _wrapped(lit, wrap):
+    if wrap == "list":
+        return ["list", lit, "typing"]
+    if wrap == "dict_value":
+        return ["dict", ["str"], lit, "typing"]
+    if wrap == "tuple":
+        return ["tuple", [["int"], lit], "typing"]
+    return lit
+
+
+def lookalike_clusters():
+    """Per value, every legal Literal member alike it: the plain value, bool, members of every mixin enum kind, of a twin class of
+    each, of a plain Enum."""
+    for v in (0, 1, 2, "a", {"$": "bytes", "h": "61"}):
+        pool = [v, *lookalikes_of(v)]
+        pool += [w for m in pool[1:] if _is_member(m) and m["spec"]["base"] in (*INT_MIXINS, *STR_MIXINS, *BYTES_MIXINS)
+                 for w in lookalikes_of(m) if _is_member(w) and w["c"].endswith("_twin")]
+        yield v, pool
+
+
 def lookalike_cases():
-    """Literals that differ only by bool / int look-alikes, bare and one level down: different types at every level."""
+    """Exhaustive side table.  (1) different types: Literals that differ in one member by a look-alike (every unordered pair of
+    every cluster), bare and one level down, alone and next to other members; (2) one type: the two look-alikes in ONE Literal
+    against the same Literal split over a union (also with a case written twice) -- de-duplication must keep both."""
     for va, vb in LITERAL_LOOKALIKE_PAIRS:
         for wrap in ("bare", "list", "dict_value", "tuple"):
-            a, b = ["literal", va], ["literal", vb]
-            if wrap == "list":
-                a, b = ["list", a, "typing"], ["list", b, "typing"]
-            elif wrap == "dict_value":
-                a, b = ["dict", ["str"], a, "typing"], ["dict", ["str"], b, "typing"]
-            elif wrap == "tuple":
-                a, b = ["tuple", [["int"], a], "typing"], ["tuple", [["int"], b], "typing"]
-            yield {"mode": "change", "a": a, "b": b, "steps": [["literal_bool_int_table", 0 if wrap == "bare" else 1]],
-                   "probes": [], "values": [], "order": False}
+            yield {"mode": "change", "a": _wrapped(["literal", va], wrap), "b": _wrapped(["literal", vb], wrap),
+                   "steps": [["literal_bool_int_table", 0 if wrap == "bare" else 1]], "probes": [], "values": [], "order": False}
+    for v, pool in lookalike_clusters():
+        for (i, x), (j, y) in itertools.combinations(enumerate(pool), 2):
+            name = f"lookalike_{lk_kind(x)}_to_{lk_kind(y)}" + ("_twin" if _is_member(y) and y["c"].endswith("_twin") else "")
+            for ctx_members in ([], ["zz", 7, 8, 9]):
+                for wrap in ("bare", "list", "dict_value", "tuple"):
+                    if ctx_members and wrap in ("dict_value", "tuple"):
+                        continue
+                    yield {"mode": "change", "a": _wrapped(["literal", [x, *ctx_members]], wrap),
+                           "b": _wrapped(["literal", [y, *ctx_members]], wrap), "steps": [[name, 0 if wrap == "bare" else 1]],
+                           "probes": [], "values": [], "order": (i + j) % 2 == 0, "family": "lookalike_table"}
+            data = datum_options(["literal", [x, y]])
+            strip_spec = [{k: w for k, w in m.items() if k != "spec"} if isinstance(m, dict) else m for m in (x, y)]
+            for form, b in (("literal_split", ["union", [["literal", [x]], ["literal", [y]]], "typing"]),
+                            ("literal_split+union_duplicated", ["union", [["literal", [y]], ["literal", [x]], ["literal", [y]]], "typing"]),
+                            ("literals_merged", ["union", [["literal", [y, "zz"]], ["int"], ["literal", [x]]], "bar"])):
+                a = ["literal", [x, y]] if form != "literals_merged" else ["union", [["int"], ["literal", [y, "zz", x]]], "typing"]
+                for wrap in ("bare", "list"):
+                    yield {"mode": "preserve", "a": _wrapped(a, wrap), "b": _wrapped(b, wrap),
+                           "steps": [[f, 0 if wrap == "bare" else 1] for f in form.split("+")],
+                           "probes": [d if wrap == "bare" else [d] for d in data], "family": "lookalike_table",
+                           "values": [m if wrap == "bare" else [m] for m in strip_spec], "order": (i + j) % 2 == 1}
     for a, b in TUPLE_LENGTH_PAIRS:
         yield {"mode": "change", "a": a, "b": b, "steps": [["tuple_length_table", 0]], "probes": [], "values": [], "order": False}
         yield {"mode": "change", "a": ["list", a, "typing"], "b": ["list", b, "typing"], "steps": [["tuple_length_table", 1]],
@@ -695,9 +970,10 @@ def explore(ctx: runner.Ctx):
             check_case(ctx, {"mode": "implicit", "name": name})
         for name in ALIAS_PROBES:
             runner.guarded(ctx, lambda k: check_case(ctx, k), {"mode": "alias", "name": name})
-        for c in lookalike_cases():
-            runner.guarded(ctx, lambda k: check_case(ctx, k), c)
         for c in same_name_cases():
+            runner.guarded(ctx, lambda k: check_case(ctx, k), c)
+    for i, c in enumerate(lookalike_cases()):   # exhaustive side table, dealt over the shards
+        if i % ctx.nshards == ctx.shard:
             runner.guarded(ctx, lambda k: check_case(ctx, k), c)
     ctx.given(st_case(), lambda c: check_case(ctx, c), ctx.budget(4000, 300000))
 
